@@ -1809,6 +1809,32 @@ where
     }
 
     fn notify_fabric_removed(&self, fab_idx: NonZeroU8) {
+        // Drop the subscriptions of the removed fabric right away, rather than leaving it to
+        // the reporter's next round (which might be a while away, e.g. while it is trying to
+        // reach another subscriber): the local index of the fabric is handed out again to the
+        // next fabric, which would then inherit them.
+        if self
+            .state
+            .subscriptions
+            .remove(&self.subscriptions_buffers, |sub| {
+                (sub.ids().fab_idx == fab_idx).then_some("fabric removed")
+            })
+        {
+            // Keep the persisted set an exact mirror of the (now-smaller) table
+            #[cfg(feature = "persistent-subscriptions")]
+            {
+                let result = self.kv.access(|store, buf| {
+                    self.state
+                        .subscriptions
+                        .persist_all(&self.subscriptions_buffers, store, buf)
+                });
+
+                if let Err(e) = result {
+                    warn!("Failed to persist subscriptions: {:?}", e);
+                }
+            }
+        }
+
         if let Err(e) = self
             .handler
             .lifecycle(self, LifecycleOp::FabricRemoval { fab_idx })
